@@ -156,10 +156,12 @@ impl fmt::Display for Display<'_> {
         let mut takes_exp = true;
         let mut n = self.spec.limit;
 
-        for d in emit(&mut rem, &den) {
-            if n == 0 {
+        let mut digits = emit(&mut rem, &den);
+
+        while n > 0 {
+            let Some(d) = digits.next() else {
                 break;
-            }
+            };
 
             if d.is_zero() && takes_exp {
                 exp -= 1;
@@ -196,6 +198,8 @@ impl fmt::Display for Display<'_> {
                 d.fmt(f)?;
             }
         }
+
+        drop(digits);
 
         if !rem.is_zero() && self.spec.show_continuation {
             f.write_char('…')?;
